@@ -20,11 +20,17 @@ def drop_misplaced(ctx, trace):
             cur.append(line)
     if cur:
         lives.append(cur)
-    kept, dropped, redel = [], 0, 0
+    kept, dropped, redel, stalled = [], 0, 0, 0
     for lv in lives:
         hits = [json.loads(l) for l in lv if '"ev":"FaultHit"' in l]
         if any(h.get("eventfd") for h in hits):
             dropped += 1
+            continue
+        # the injector itself got in the way: the tracer kept the loop's thread stopped for seconds, or the harness's own
+        # timers fired many seconds late (the process was not running): what such a life shows about bounded time says
+        # nothing about gnet
+        if any(('"ev":"TracerStall"' in l) or ('"ev":"HarnessStall"' in l) for l in lv):
+            stalled += 1
             continue
         # an injected failure of EPOLL_CTL_DEL leaves the kernel's registration behind as long as a duplicate of the
         # descriptor is alive (the handler holds one for 25 ms): epoll goes on reporting the dead number and the loop
@@ -54,7 +60,9 @@ def drop_misplaced(ctx, trace):
         ctx.notes.append("%d repeated EPOLL_CTL_DEL intents on the number of a connection whose own EPOLL_CTL_DEL had been failed by injection were taken out of the log" % redel)
     if dropped:
         ctx.notes.append("%d engine lives discarded: the injected fault landed on the poller's eventfd, not on a connection's system call" % dropped)
-    if dropped or redel:
+    if stalled:
+        ctx.notes.append("%d engine lives discarded: the tracer kept the loop's thread stopped (or the whole process did not run) for seconds while the fault was armed" % stalled)
+    if dropped or redel or stalled:
         out = trace + ".kept"
         with open(out, "w") as f:
             f.writelines(kept)
